@@ -143,7 +143,21 @@ class Srv6SidInformation:
 
     def json(self, compact: bool | None = None) -> str:
         s: str = '{{ "sid": "{}", "flags": 0, "endpoint_behavior": {}'.format(str(self.sid), self.behavior)
-        content: str = ', '.join(subsubtlv.json() for subsubtlv in self.subsubtlvs)
+        # a registered sub-sub-TLV renders as a `"name": value` member, an unknown one as a bare object:
+        # the latter are gathered in one array, a bare object is not a member of this object
+        members: list[str] = []
+        unknown: list[str] = []
+        seen: set[type] = set()
+        for subsubtlv in self.subsubtlvs:
+            if isinstance(subsubtlv, GenericSrv6ServiceDataSubSubTlv):
+                unknown.append(subsubtlv.json())
+            elif type(subsubtlv) not in seen:
+                # a registered sub-sub-TLV names its member: repeated, it would repeat the key
+                seen.add(type(subsubtlv))
+                members.append(subsubtlv.json())
+        if unknown:
+            members.append('"unknown-sub-sub-tlvs": [ {} ]'.format(', '.join(unknown)))
+        content: str = ', '.join(members)
         if content:
             s += ', {}'.format(content)
         s += ' }'
